@@ -242,7 +242,8 @@ def refs_in(desc, t, out=None):
         return out
     k = t[0]
     if k == 'name':
-        refs_in(desc, desc['names'][t[1]], out)
+        target = desc['names'][t[1]]
+        refs_in(desc, target[2] if target[0] == 'val' else target, out)
     elif k == 'cell':
         out.add(tuple(t[1:5]))
     elif k == 'rng':
@@ -279,3 +280,20 @@ def downstream(desc, sources):
                 hit.add(key)
                 changed = True
     return hit
+
+
+def upstream(desc, targets):
+    """All cells the target cells transitively read (targets included)."""
+    ev = rw.Evaluator(desc)
+    seen, stack = set(), list(targets)
+    while stack:
+        k = stack.pop()
+        if k in seen:
+            continue
+        seen.add(k)
+        if k in ev.owner:
+            stack.append(ev.owner[k])
+        cell = ev.cells.get(k)
+        if cell and 'f' in cell:
+            stack.extend(refs_in(desc, cell['f']))
+    return seen
